@@ -299,6 +299,7 @@ struct Engine
             else ntt->INTT(d, src.el(), n, ncols, bf, c.nphase, c.nblock);
             g_record = false;
             uint64_t *res = c.alias == 1 ? dstb->p : src.p;
+            vf::digest(std::string(KN[c.kind]) + ":d" + std::to_string(c.d), vf::mix64(vf::mix64(c.S * 64 + c.d, c.ncols * 8 + c.buffer * 4 + c.alias), vf::mix64(c.nphase, c.nblock)), res, n * ncols * 8);
             for (uint64_t i = 0; i < n * ncols && ok; i++)
                 if (orc::canon(res[i]) != io->out[i])
                 {
@@ -328,6 +329,7 @@ struct Engine
             ntt->extendPol(o, in.el(), next, n, ncols, c.buffer ? bufb->el() : NULL, c.nphase, c.nblock);
             g_record = false;
             uint64_t *res = (uint64_t *)o;
+            vf::digest(std::string(KN[c.kind]) + ":d" + std::to_string(c.d) + ":e" + std::to_string(c.e), vf::mix64(vf::mix64(c.S * 64 + c.d, c.ncols * 8 + c.buffer * 4 + c.alias), vf::mix64(c.nphase, c.nblock)), res, next * ncols * 8);
             for (uint64_t i = 0; i < next * ncols && ok; i++)
                 if (orc::canon(res[i]) != io->out[i])
                 {
